@@ -8,12 +8,15 @@ import (
 func (p *Pool) Send(ctx context.Context, e Event) {
 	e.ctx = ctx
 
-	p.sendWg.Add(1)
-	defer p.sendWg.Done()
+	p.lifeM.RLock()
+	defer p.lifeM.RUnlock()
 
 	if p.ctx.Err() != nil {
 		return
 	}
+
+	p.sendWg.Add(1)
+	defer p.sendWg.Done()
 
 	select {
 	case <-p.ctx.Done():
